@@ -323,6 +323,8 @@ class CallMixin:
             res = kind.fresh(f"ret:{short}")
             if self.qvars:
                 res = self.skolemize(res, kind, f"ret:{short}")
+            elif isinstance(res, VList):
+                res = VList(res.elem, res.arrs, z3.IntVal(0), res.n)     # a fresh abstract sequence: offset 0 w.l.o.g.
             st.assume(*self.wf(res, st))
         C2 = Ctx(self, st, names)
         for cname, term in spec.ensures(C2, view(self, st, res)):
